@@ -72,6 +72,15 @@ pub trait Subject {
         None
     }
     fn debug(&self) -> String;
+    /// the value's real `Debug` output (the summary `debug()` is used for logs and signatures)
+    fn debug_full(&self) -> String {
+        self.debug()
+    }
+    /// the same value built from equal parameters through other input representations the API accepts
+    /// (iterators with inexact size hints, chained halves, ...)
+    fn alt_builds(&self) -> Vec<(&'static str, Box<dyn Subject>)> {
+        vec![]
+    }
     fn is_f32(&self) -> bool;
     /// number of scalar components per sample (for the C05 mean-words bound)
     fn width(&self) -> usize {
@@ -263,6 +272,9 @@ macro_rules! weighted_subject {
             fn debug(&self) -> String {
                 format!("WeightedAliasIndex<{}>[len {}]", stringify!($W), self.1.len())
             }
+            fn debug_full(&self) -> String {
+                format!("{:?}", self.0)
+            }
             fn is_f32(&self) -> bool {
                 $is32
             }
@@ -291,6 +303,35 @@ macro_rules! weighted_subject {
             }
             fn debug(&self) -> String {
                 format!("WeightedTreeIndex<{}>[len {}]", stringify!($W), self.1.len())
+            }
+            fn debug_full(&self) -> String {
+                format!("{:?}", self.0)
+            }
+            fn alt_builds(&self) -> Vec<(&'static str, Box<dyn Subject>)> {
+                /// an iterator that under-reports its length (a legal `size_hint`)
+                struct Half<I>(I, usize);
+                impl<I: Iterator> Iterator for Half<I> {
+                    type Item = I::Item;
+                    fn next(&mut self) -> Option<I::Item> {
+                        self.0.next()
+                    }
+                    fn size_hint(&self) -> (usize, Option<usize>) {
+                        (self.1 / 2, None)
+                    }
+                }
+                let ws = &self.1;
+                let mut out: Vec<(&'static str, Box<dyn Subject>)> = vec![];
+                let mut push = |name: &'static str, r: Result<WeightedTreeIndex<$W>, rand_distr::weighted::Error>| {
+                    if let Ok(d) = r {
+                        out.push((name, Box::new($tname(d, ws.clone())) as Box<dyn Subject>));
+                    }
+                };
+                push("filter (lower bound 0)", WeightedTreeIndex::new(ws.iter().copied().filter(|_| true)));
+                push("under-reporting size_hint", WeightedTreeIndex::new(Half(ws.iter().copied(), ws.len())));
+                let (a, b) = ws.split_at(ws.len() / 3);
+                push("chain of two parts", WeightedTreeIndex::new(a.iter().chain(b.iter()).copied()));
+                push("slice of references", WeightedTreeIndex::new(ws.iter()));
+                out
             }
             fn is_f32(&self) -> bool {
                 $is32
